@@ -418,18 +418,8 @@ func (r *Run) nilModulesGuard(dup *ssa.Function, cgField *types.Var) {
 		}
 		ok := false
 		for _, g := range Guards(c.Block()) {
-			gt := tm.Of(g.Cond)
-			// len(recv.ControlGenes) == 0  (true edge)   or  != 0 (false edge)
-			if gt.Op == "bin" && (gt.Name == "==" || gt.Name == "!=") {
-				l, k := gt.Args[0], gt.Args[1]
-				if l.Op != "len" {
-					l, k = k, l
-				}
-				if l.Op == "len" && l.Args[0].Op == "field" && l.Args[0].Obj == cgField && k.Op == "const" && k.Name == "0" {
-					if (gt.Name == "==") == g.True {
-						ok = true
-					}
-				}
+			if LenZeroFact(g.Cond, g.True, func(v ssa.Value) bool { l := tm.Of(v); return l.Op == "field" && l.Obj == cgField }) > 0 {
+				ok = true
 			}
 		}
 		r.Check(ok, "duplicate.no-modules-branch", p.Pos(c.Pos()), "the module-free duplicate is returned only under len(source.ControlGenes) == 0",
@@ -932,25 +922,13 @@ func (r *Run) c06NilModulesGuard(flat *ssa.Function, sites []c06ResultSite) {
 					gs = append(gs, Guard{iff.Cond, b.Succs[0] == ph.Block(), b})
 				}
 			}
+			isSrcModules := func(v ssa.Value) bool {
+				l := tm.Of(v)
+				return l.Op == "field" && l.Obj == cgField && isParamIdx(l.Args[0], 0)
+			}
 			for _, g := range gs {
-				gt := tm.Of(g.Cond)
-				if gt.Op != "bin" {
-					continue
-				}
-				l, k := gt.Args[0], gt.Args[1]
-				if l.Op != "len" {
-					l, k = k, l
-				}
-				if !(l.Op == "len" && l.Args[0].Op == "field" && l.Args[0].Obj == cgField && isParamIdx(l.Args[0].Args[0], 0) && k.Op == "const" && k.Name == "0") {
-					continue
-				}
-				switch gt.Name {
-				case "==":
-					ok = ok || g.True
-				case "!=", ">":
-					ok = ok || !g.True
-				case "<=":
-					ok = ok || g.True
+				if LenZeroFact(g.Cond, g.True, isSrcModules) > 0 {
+					ok = true
 				}
 			}
 			r.Check(ok, "duplicate.no-modules-branch", p.Pos(rs.call.Pos()), "the module-free duplicate is returned only under len(source.ControlGenes) == 0",
